@@ -32,6 +32,8 @@ func main() {
 	kMem := r.Pick(3, 4)
 
 	// ---- part 1
+	pp := newPreprocCheck(r, dir, db, kMem)
+	pp.startDB()
 	t0 := time.Now()
 	ls := runLines(r, maxExtras)
 	ls.report(r)
@@ -39,7 +41,7 @@ func main() {
 
 	// ---- part 2
 	t0 = time.Now()
-	ps := runPreproc(r, dir, db, kMem)
+	ps := pp.finish(r)
 	debugf("part 2: %.1fs", time.Since(t0).Seconds())
 
 	total := ls.evals + ls.minimEvals + ps.dbPairs + ps.memPairs
